@@ -77,6 +77,35 @@ def loop_body_form(stmts):
     return out
 
 
+def builder_form(stmts):
+    """`L = []` directly followed by `for x in XS: [if c:] L.append(E)` (nothing else in the loop; E, XS and c do not mention
+    L; no else branch) is `L = [E for x in XS if c]`."""
+    out = []
+    i = 0
+    while i < len(stmts):
+        s = stmts[i]
+        nxt = stmts[i + 1] if i + 1 < len(stmts) else None
+        if isinstance(s, ast.Assign) and len(s.targets) == 1 and isinstance(s.targets[0], ast.Name) and isinstance(s.value, ast.List) and not s.value.elts \
+                and isinstance(nxt, ast.For) and not nxt.orelse and len(nxt.body) == 1:
+            L = s.targets[0].id
+            b, conds = nxt.body[0], []
+            if isinstance(b, ast.If) and not b.orelse and len(b.body) == 1:
+                conds, b = [b.test], b.body[0]
+            if isinstance(b, ast.Expr) and isinstance(b.value, ast.Call) and isinstance(b.value.func, ast.Attribute) and b.value.func.attr == "append" \
+                    and isinstance(b.value.func.value, ast.Name) and b.value.func.value.id == L and len(b.value.args) == 1 and not b.value.keywords:
+                elt = b.value.args[0]
+                mentions = any(isinstance(n, ast.Name) and n.id == L for e in [elt, nxt.iter, nxt.target] + conds for n in ast.walk(e))
+                if not mentions and not any(isinstance(n, (ast.Yield, ast.YieldFrom, ast.Await, ast.NamedExpr)) for e in [elt] + conds for n in ast.walk(e)):
+                    comp = ast.ListComp(elt=elt, generators=[ast.comprehension(target=nxt.target, iter=nxt.iter, ifs=conds, is_async=0)])
+                    new = ast.copy_location(ast.Assign(targets=[s.targets[0]], value=ast.copy_location(comp, nxt)), s)
+                    out.append(ast.fix_missing_locations(new))
+                    i += 2
+                    continue
+        out.append(s)
+        i += 1
+    return out
+
+
 def _boolean_valued(e) -> bool:
     if isinstance(e, ast.Compare):
         return True
@@ -212,7 +241,7 @@ class Canon(ast.NodeTransformer):
         for fld in ("body", "orelse", "finalbody"):
             lst = getattr(node, fld, None)
             if isinstance(lst, list) and lst and isinstance(lst[0], ast.stmt):
-                lst = bool_return_form(guard_form(lst))
+                lst = builder_form(bool_return_form(guard_form(lst)))
                 if fld == "body" and isinstance(node, (ast.For, ast.While)):
                     lst = guard_form(loop_body_form(lst))
                 setattr(node, fld, lst or [ast.Pass()])
